@@ -991,11 +991,6 @@ int main(int argc, char** argv)
      */
     while (simulationstep<laststep && !Display::abort) {
         INOVESA_VERIF_POINT("loop_head");
-        if (wkm != nullptr) {
-            // works on XProjection
-            wkm->update();
-        }
-        INOVESA_VERIF_POINT("wake_updated");
         if (renormalize > 0 && simulationstep%renormalize == 0) {
             // works on XProjection
             grid_t1->integrateAndNormalize();
@@ -1007,6 +1002,11 @@ int main(int argc, char** argv)
             grid_t1->integrate();
         }
         INOVESA_VERIF_POINT("normalized");
+        if (wkm != nullptr) {
+            // works on XProjection (of the renormalized distribution)
+            wkm->update();
+        }
+        INOVESA_VERIF_POINT("wake_updated");
 
         if (outstep > 0 && simulationstep%outstep == 0) {
             INOVESA_VERIF_POINT("out_begin");
@@ -1126,10 +1126,6 @@ int main(int argc, char** argv)
     #if INOVESA_USE_HDF5 == 1
     // save final result
     if (hdf_file != nullptr) {
-        if (wkm != nullptr) {
-            wkm->update();
-        }
-        INOVESA_VERIF_POINT("fin_wake_updated");
         /* Without renormalization at this point
          * the last time step might behave slightly different
          * from the ones before.
@@ -1145,6 +1141,10 @@ int main(int argc, char** argv)
             grid_t1->integrate();
         }
         INOVESA_VERIF_POINT("fin_normalized");
+        if (wkm != nullptr) {
+            wkm->update();
+        }
+        INOVESA_VERIF_POINT("fin_wake_updated");
         grid_t1->variance(0);
         grid_t1->updateYProjection();
         grid_t1->variance(1);
